@@ -613,7 +613,7 @@ Theorem value_after_invalidated_key_rejected F (s : sc strin) k r :
 Proof.
   intros Hk Hp Hf Hi Ha Hc. unfold fetch_value.
   unfold bind at 1. unfold get at 1. rewrite Hk. unfold bind at 1. unfold ret at 1.
-  rewrite Hi. cbn [andb]. unfold bind at 1. unfold ret at 1.
+  rewrite Hi, Hf. change (0 =? 0) with true. cbn [orb andb]. cbv iota. unfold bind at 1. unfold ret at 1.
   unfold bind at 1. unfold skip_non_blank, in_skip, adv_mark, modify, bind at 1. cbn.
   apply N.eqb_neq in Hc. unfold chr in *. rewrite Hc. cbn. rewrite Hp. cbn. rewrite Hf, Ha. reflexivity.
 Qed.
